@@ -46,24 +46,30 @@ pub struct FailWriter {
     pub got: Vec<u8>,
     pub cap: usize,
     pub fired: bool,
+    /// at most this many bytes are accepted per write() call (io::Write allows short writes)
+    pub chunk: usize,
 }
 impl FailWriter {
     pub fn new(cap: usize) -> FailWriter {
-        FailWriter { got: vec![], cap, fired: false }
+        FailWriter { got: vec![], cap, fired: false, chunk: usize::MAX }
+    }
+    pub fn with_chunk(cap: usize, chunk: usize) -> FailWriter {
+        FailWriter { got: vec![], cap, fired: false, chunk }
     }
 }
 impl Write for FailWriter {
     fn write(&mut self, buf: &[u8]) -> std::io::Result<usize> {
         if self.fired {
-            self.got.extend(buf);
-            return Ok(buf.len());
+            let n = buf.len().min(self.chunk);
+            self.got.extend(&buf[..n]);
+            return Ok(n);
         }
         let left = self.cap - self.got.len();
         if left == 0 && !buf.is_empty() {
             self.fired = true;
             return Err(std::io::Error::new(std::io::ErrorKind::Other, "injected write fault"));
         }
-        let n = buf.len().min(left);
+        let n = buf.len().min(left).min(self.chunk);
         self.got.extend(&buf[..n]);
         Ok(n)
     }
@@ -401,10 +407,13 @@ pub fn run_case(id: &str, c: &Value) -> Value {
         if let Ok((h, _)) = &sl {
             let full = h.bytes();
             for k in 0..=full.len() + 1 {
-                let mut w = FailWriter::new(k);
-                let ok = h.write(&mut w).is_ok();
-                let prefix = w.got.len() <= full.len() && w.got[..] == full[..w.got.len()];
-                writes.push(json!([k, if ok { 1 } else { 0 }, w.got.len(), if prefix { 1 } else { 0 }]));
+                // the writer takes everything it is offered / one byte / three bytes per call (short writes are legal for io::Write)
+                for chunk in [usize::MAX, 1, 3] {
+                    let mut w = FailWriter::with_chunk(k, chunk);
+                    let ok = h.write(&mut w).is_ok();
+                    let prefix = w.got.len() <= full.len() && w.got[..] == full[..w.got.len()];
+                    writes.push(json!([k, if ok { 1 } else { 0 }, w.got.len(), if prefix { 1 } else { 0 }]));
+                }
                 let mut buf = vec![0xC7u8; k + 4];
                 if let Some(res) = h.write_to_slice(&mut buf[..k]) {
                     let canary = buf[k..].iter().all(|x| *x == 0xC7);
